@@ -467,6 +467,6 @@ def panic_census(ctx, crate, crs, tag, cfg):
             classes[e["class"]] = classes.get(e["class"], 0) + 1
     ctx.ob(R, "-", "census-matches-reviewed-table", n_new == 0, "",
            "%d distinct reachable explicit panic sites, all reviewed; by class: %s" % (len(found), classes))
-    ctx.floor(R, "reachable explicit panic sites", len(found), 60 if "debug_assertions" in crate.cfg else 45)
+    ctx.floor(R, "reachable explicit panic sites", len(found), 45 if "debug_assertions" in crate.cfg else 35)
     if tag == "":
         ctx.notes.append("panic sites by class (cfgA): %s" % classes)
